@@ -317,6 +317,26 @@ META = {
         ],
         run_cap_s=600, shrink_tests=25, shrink_s=200,
     ),
+    "C09": _m(
+        "E", "exploration", (24, 2500), (900, 3000),
+        "Each run = one Engine run of a sequence of 2-5 real kernels (NUTS / HMC / IWLS / RW / MH with a user proposal / Gibbs) over the "
+        "disjoint blocks {beta}, {log_sigma or the Exp-transformed sigma}, {z} of a regression model with derived quantities (weak vars "
+        "mu = X beta and sigma, a cached Calc d = tanh(z) beta_0, the stored log-probability), as a Liesel graph model (2 of 3 runs) or a dict "
+        "model, kernel order shuffled, optionally an order-sensitive deterministic Gibbs pair (x <- y + 1, y <- 2x) interleaved, z with a "
+        "Uniform prior (zero-density region: F2) or a Normal prior, 1-3 chains, 20 iterations over a warm-up and a posterior epoch; an "
+        "ObserverKernel sits before, between and after the kernels. Non-trivial = at least one observed state checked; distinct = distinct "
+        "configuration.",
+        "kernel transitions x chains",
+        "distinct (model kind, kernel order, kernel types, scale parametrisation, prior of z, Gibbs pair, pair order) tuples",
+        ["liesel.goose.KernelSequence, NUTSKernel, HMCKernel, IWLSKernel, RWKernel, MHKernel, GibbsKernel, mh_step, LieselInterface.update_state, DictInterface, Engine"],
+        ["ObserverKernel (verif-owned, public Kernel protocol, no position keys)", "the regression model and its closed-form float64 reference"],
+        [
+            "derived quantities and the log-density are recomputed in float64 closed form from the observed parameter values (rtol 2e-5 / 2e-4 for the float32 log-density sum)",
+            "hand-over is compared bit for bit; descendants of a block are taken from the model definition in the plan",
+            "NUTS/HMC report position_moved = 99 (unknown), so the rejected => unchanged clause is checked for RW / MH / IWLS only",
+        ],
+        run_cap_s=900, shrink_tests=10, shrink_s=300,
+    ),
 }
 
 
@@ -331,6 +351,14 @@ NOT_APPLICABLE["C18"] = (
 )
 
 MANIFEST_TEXT = {
+    "C09": dict(
+        technique="deterministic simulation: seeded kernel sequences of real kernels with observer probes between them; recorded intermediate states vs closed-form recomputation and hand-over comparison",
+        design_ref="DESIGN.md section 4 C09",
+        level_text="Seeded search over kernel orders, kernel types per block, Liesel and dict models, acceptance outcomes (zero-density regions and "
+        "step sizes giving both outcomes); the state every kernel receives and leaves is observed in-band and checked for order, blockwise "
+        "isolation, rejection => unchanged, and coherence of all derived quantities incl. the stored log-probability. Sampling, not a proof.",
+        level_note="Trusted: scipy closed forms, blackjax. ObserverKernel and the model family are stubs; kernels, kernel sequence, interfaces, engine are real.",
+    ),
     "C11": dict(
         technique="deterministic simulation: seeded acceptance histories through da_init/da_step/da_finalize and seeded engine schedules of the real adapting kernels; stored kernel states vs a float64 dual-averaging model",
         design_ref="DESIGN.md section 4 C11",
